@@ -13,6 +13,7 @@
 (*   offered_unknown    an id nobody logged, or a buffered message older than the most recent 1000                         *)
 (*   buffered_order     the buffered messages are not offered in order, or a later message comes before one of them        *)
 (*   after_removal      a destination is called after remove_destination() for it has returned                             *)
+(*   returned_before_offered  after the hand-over, a logging call returned before a registered destination was offered it  *)
 EXTENDS Naturals, Sequences, FiniteSets, TLC, Json, IOUtils, TLCExt
 Cap == 1000
 TraceFile == JsonDeserialize(IOEnv.TRACE_FILE)
@@ -40,6 +41,10 @@ ClauseOf(d) ==
      ELSE IF ~first /\ d[3] = 0 /\ ~(LoggedAfter(d[2]) \subseteq idset) THEN "not_offered"
      ELSE IF first /\ d[3] = 0 /\ \E i \in DOMAIN pre : pre[i] # T.pre_lo + Dropped + i - 1 THEN "buffered_order"
      ELSE IF \E i \in DOMAIN plain : i < Len(plain) /\ IsPost(plain[i]) /\ IsPre(plain[i + 1]) THEN "buffered_order"
+     \* delivery is synchronous once the hand-over is over: a logging call (a destination's own included) returns only after every
+     \* registered destination has been offered the message (C11 builds on it: acknowledged = written and flushed)
+     ELSE IF first /\ d[3] = 0 /\ \E i \in DOMAIN T.logged : T.logged[i][1] > T.add_res /\
+                  ~\E k \in DOMAIN del : del[k][2] = T.logged[i][3] /\ del[k][1] < T.logged[i][2] THEN "returned_before_offered"
      ELSE ""
 Clause == IF Len(T.errors) > 0 THEN "call_raised"
           ELSE LET cs == [i \in DOMAIN T.dests |-> ClauseOf(T.dests[i])]
